@@ -33,12 +33,83 @@ def sign_carrying_outcomes(rep, F, fns, rule='R-TABLE'):
 
 
 
+STRUCT = re.compile(r'BigDecimal::(new|from_bigint|from_biguint|to_ref)$|BigInt::from_biguint$|clone::Clone::clone$|convert::(From::from|Into::into)$|borrow::ToOwned::to_owned$|BigInt::(magnitude|into_parts|sign)$|BigDecimalRef.*::(to_owned|abs)$|Signed::abs$|BigDecimal::abs$')
+SHORTEN = re.compile(r'BigDecimal::(with_prec|with_precision_round|with_scale_round|with_scale|round|set_scale|take_and_scale)$|to_owned_with_scale$|Context::round_decimal|ops::(Div|Rem|Shr)(Assign)?|Integer::div_rem$|Roots::')
+
+
+def operand_exact(rep, F, rule='OPERAND-EXACT'):
+    """the Newton iteration r <- r(2 - x r) converges to the reciprocal of whatever x it is given: the operand built from
+    (n, scale) must reach the iteration closure unrounded.  Values derived only from the operand parameters through
+    structure-preserving constructors form the class OPERAND; handing one of them to a rounding / truncating routine is a
+    violation (the iterate and the initial guess are not in that class and may be clipped freely)"""
+    fn = F.fns.get('arithmetic::inverse::impl_inverse_uint_scale')
+    if fn is None:
+        rep.violation(rule, 'impl_inverse_uint_scale:missing', 'anchor function not found (fail closed)')
+        return 0
+    rep.add_functions([fn.name])
+    OP = {1, 2}
+    CONST = set()
+    changed = True
+    while changed:
+        changed = False
+        for bid, st in fn.stmts():
+            rv = st['rv']
+            if st['lhs']['p']:
+                continue
+            l = st['lhs']['l']
+            src = []
+            if rv['r'] in ('use', 'cast') and rv['op'].get('k') in ('copy', 'move'):
+                src = [rv['op']['pl']['l']]
+            elif rv['r'] == 'ref':
+                src = [rv['pl']['l']]
+            elif rv['r'] == 'agg' and rv['kind'].get('a') != 'closure':
+                src = [o['pl']['l'] for o in rv['ops'] if o.get('k') in ('copy', 'move')]
+                if not src:
+                    if l not in CONST:
+                        CONST.add(l)
+                        changed = True
+                    continue
+            else:
+                continue
+            if src and all(x in OP for x in src) and l not in OP:
+                OP.add(l)
+                changed = True
+        for bid, t in fn.calls():
+            if not t.get('dest') or t['dest']['p']:
+                continue
+            r0 = TB._plain(t['callee'].get('resolved') or t['callee'].get('def') or '')
+            d0 = TB._plain(t['callee'].get('def') or '')
+            locs = [a['pl']['l'] for a in t['args'] if a.get('k') in ('copy', 'move')]
+            if (STRUCT.search(r0) or STRUCT.search(d0)) and locs and all(x in OP or x in CONST for x in locs) and any(x in OP for x in locs) and t['dest']['l'] not in OP:
+                OP.add(t['dest']['l'])
+                changed = True
+    bad = []
+    for bid, t in fn.calls():
+        r0 = TB._plain(t['callee'].get('resolved') or t['callee'].get('def') or '')
+        d0 = TB._plain(t['callee'].get('def') or '')
+        if (SHORTEN.search(r0) or SHORTEN.search(d0)) and t['args'] and t['args'][0].get('k') in ('copy', 'move') and t['args'][0]['pl']['l'] in OP:
+            bad.append((r0.split('::')[-1], t['loc']['line']))
+    captured = False
+    for bid, st in fn.stmts():
+        rv = st['rv']
+        if rv['r'] == 'agg' and rv['kind'].get('a') == 'closure' and any(o.get('k') in ('copy', 'move') and o['pl']['l'] in OP for o in rv['ops']):
+            captured = True
+    key = fn.key + ':operand-reaches-iteration-unrounded'
+    if bad:
+        rep.violation(rule, key, 'the operand is shortened by %s (line %d) before the Newton iteration: the result converges to the reciprocal of a rounded x, so exact reciprocals and directed modes go wrong' % bad[0], fn.where(bad[0][1]))
+    elif not captured:
+        rep.undecided(rule, key, 'no iteration closure capturing an operand-only value recognised', fn.where())
+    else:
+        rep.ok(rule, key, '%d operand-only locals; none is handed to a rounding or truncating routine; the iteration closure captures one of them' % len(OP), fn.where())
+    return 1
+
+
 def run(ctx):
     rep = ctx.rep
     rep.explanation = ('Static MIR analysis. PROV-CTX: inverse_with_context -> impl_inverse_uint_scale: the final with_precision_round receives '
                        'ctx.precision and ctx.rounding. R-SIGN: the implementation rounds |x| and copies the sign afterwards, so the exact '
                        '(sign, mode) table is extracted from the CFG: the rounding routine must receive Ceiling for (Minus, Floor), Floor for '
-                       '(Minus, Ceiling) and the caller\'s context in the 19 other cells. NOT decided: convergence, termination, accuracy at small p.')
+                       '(Minus, Ceiling) and the caller\'s context in the 19 other cells. OPERAND-EXACT: the operand reaches the Newton iteration unrounded (only the iterate and the guess are clipped). NOT decided: convergence, termination, accuracy at small p.')
     F = ctx.facts('default', 'rel')
     fns = roots.family(F, r'^inverse|^impl_inverse')
     rep.entries['inverse family'] = [f.key for f in fns]
@@ -47,6 +118,8 @@ def run(ctx):
     rep.floor('PROV-CTX final sinks', n1, 2)
     rep.floor('R-SIGN instances', n2, 3)
     n3 = sign_carrying_outcomes(rep, F, fns)
+    n4 = operand_exact(rep, F)
+    rep.floor('operand-exactness rule', n4, 1)
     rep.floor('entry points with sign-carrying returns', n3, 1)
     if ctx.tier == 'thorough':
         from rules import witness
